@@ -83,30 +83,21 @@ Theorem c02_validator_strict : forall c, c <> SDefaultDelay ->
 Proof. exact validator_strict. Qed.
 Print Assumptions c02_validator_strict.
 
-(* G1 is FALSE for DefaultDelay: the class has no verify_arg, every integer is accepted *)
-Theorem c02_default_delay_refuted : forall sc, find_class n_DefaultDelay = Some sc ->
-  exists a, is_int a /\ eval_validator (s_params sc) (s_verify_arg sc) a = Ok true
-            /\ legal_arg SDefaultDelay a = false.
-Proof. exact default_delay_not_strict. Qed.
-Print Assumptions c02_default_delay_refuted.
+(* DEFAULT_DELAY is validated like DELAY (since the fix commit; before it, every integer was accepted) *)
+Theorem c02_default_delay_strict : forall sc, find_class n_DefaultDelay = Some sc -> forall a, is_int a ->
+  eval_validator (s_params sc) (s_verify_arg sc) a = Ok true -> legal_arg SDefaultDelay a = true.
+Proof. exact default_delay_strict. Qed.
+Print Assumptions c02_default_delay_strict.
 
-Theorem c02_default_delay_emits_negative : forall sc, find_class n_DefaultDelay = Some sc ->
-  forall name n orig,
-  eval_validator (s_params sc) (s_verify_arg sc) (AInt (-5)) = Ok true /\
-  eval_formatter (s_params sc) (s_format_arg sc) (AInt (-5)) = Ok (AInt (-5)) /\
-  name_line name (Some (mkLine (AInt (-5)) n orig)) = upper name ++ [32; 45; 53]%N.
-Proof. exact default_delay_emits_negative. Qed.
-Print Assumptions c02_default_delay_emits_negative.
-
-(* ... what does hold of DEFAULT_DELAY: the emitted text is an integer literal, sign allowed *)
-Theorem c02_default_delay_line : forall sc, find_class n_DefaultDelay = Some sc ->
+Theorem c02_default_delay_line_digits : forall sc, find_class n_DefaultDelay = Some sc ->
   forall name a a' n orig, is_int a ->
   eval_validator (s_params sc) (s_verify_arg sc) a = Ok true ->
   eval_formatter (s_params sc) (s_format_arg sc) a = Ok a' ->
-  exists d, name_line name (Some (mkLine a' n orig)) = upper name ++ [32%N] ++ d
-            /\ int_literal d = true.
-Proof. exact default_delay_line_literal. Qed.
-Print Assumptions c02_default_delay_line.
+  exists d, name_line name (Some (mkLine a' n orig)) = upper name ++ [32%N] ++ d /\ digit_string d = true.
+Proof. exact default_delay_line_digits. Qed.
+Print Assumptions c02_default_delay_line_digits.
+
+
 
 (* G2: formatting keeps an argument inside the grammar (all ten classes) *)
 Theorem c02_formatter_legal : forall c sc, find_class (class_name c) = Some sc ->
